@@ -14,6 +14,7 @@ def raw : RawFacts :=
     recheckAck := Facts.C26.recheckAck, recheckCtx := Facts.C26.recheckCtx,
     dropIfSent := Facts.C26.dropIfSent, nopOnCancel := Facts.C26.nopOnCancel,
     deleteOnReturn := Facts.C26.deleteOnReturn, removeAckDeferred := Facts.C26.removeAckDeferred,
+    handlerLogFirst := Facts.C26.handlerLogFirst,
     ackUnknown := Facts.C26.ackUnknown, ackCloses := Facts.C26.ackCloses, ackDeletes := Facts.C26.ackDeletes }
 
 /-- The engine as it is in the source, for a retry limit and interval. -/
